@@ -1005,8 +1005,16 @@ impl<'tera> VirtualMachine<'tera> {
             component_recursion_depth: self.component_recursion_depth,
         };
 
+        // Same as in `render_to`: a template that extends another one is rendered starting from
+        // its root ancestor, with its own block lineage
+        let chunk = if let Some(base_tpl_name) = tpl.parents.first() {
+            &self.tera.must_get_template(base_tpl_name)?.chunk
+        } else {
+            &tpl.chunk
+        };
+
         // We create a dummy state for variables to be written to, but we don't keep it around
-        let mut include_state = State::new_with_chunk(state.context, &tpl.chunk);
+        let mut include_state = State::new_with_chunk(state.context, chunk);
         include_state.include_parent = Some(state);
         include_state.filters = Some(&self.tera.filters);
         include_state.render_depth = state.render_depth + 1;
